@@ -107,6 +107,13 @@ def check(run, project):
     from ..report import RuleView
     from . import c01
     c01.check(RuleView(run, "W7", "A7"), project)
+    # A10 (= C09-S5): the objects of a stream are rebuilt message by message, each response with the code of the command just
+    # before it and the code forgotten afterwards (events_to_objs / separate_events)
+    from . import c09
+    try:
+        c09.s5(RuleView(run, "S5", "A10"), project)
+    except AnalysisError as ex:
+        run.info(f"A10: the stream conversion could not be followed ({ex}); not judged here (C09 reports it)")
     run.floor("A1", 100)
     run.floor("A2", 500)
 
